@@ -1,5 +1,6 @@
 """C06 - money literals, currency conversion and money arithmetic. DESIGN.md 3.C06."""
 
+import re
 from fractions import Fraction
 
 from . import lex, mon
@@ -61,7 +62,10 @@ def literal(rng, canon, code, sep, aliases):
         k = rng.choice(['k', 'M'])
         return '%s%s %s' % (lit, k, code), (1000 if k == 'k' else 1000000)
     c = rng.choice([code, code.upper(), code.capitalize()])
-    return lit + rng.choice([' ', '', ' ']) + c, 1
+    text = lit + rng.choice([' ', '', ' ']) + c
+    if re.match(r'0[xX][0-9a-fA-F]|0[oO][0-7]|0[bB][01]', text):
+        text = lit + ' ' + c            # '0xaf' is the hexadecimal literal (C13), zero CFA francs need the blank
+    return text, 1
 
 
 class Rates:
